@@ -147,15 +147,20 @@ class TocFetcher:
             pk.data = (CMD_TOC_INFO,)
             self.cf.send_packet(pk, expected_reply=(CMD_TOC_INFO,))
 
+    def _stop_listening(self):
+        try:
+            self.cf.disconnected.remove_callback(self._disconnected)
+        except ValueError:
+            pass  # Already removed (the disconnect was reported twice)
+        self.cf.remove_port_callback(self.port, self._new_packet_cb)
+
     def _disconnected(self, uri):
         """The link was closed or lost before the TOC was complete"""
-        self.cf.disconnected.remove_callback(self._disconnected)
-        self.cf.remove_port_callback(self.port, self._new_packet_cb)
+        self._stop_listening()
 
     def _toc_fetch_finished(self):
         """Callback for when the TOC fetching is finished"""
-        self.cf.disconnected.remove_callback(self._disconnected)
-        self.cf.remove_port_callback(self.port, self._new_packet_cb)
+        self._stop_listening()
         logger.debug('[%d]: Done!', self.port)
         self.finished_callback()
 
